@@ -247,6 +247,46 @@ pub fn apply<W: Write + Seek>(w: &mut ZipWriter<W>, op: &Op) -> Result<(), Strin
     Ok(())
 }
 
+/// A caller that does not stop at the first error: every call the operation consists of is issued whatever
+/// the earlier ones returned (errors are handed to `note`), followed by a `flush()`.
+pub fn apply_persistent<W: Write + Seek>(w: &mut ZipWriter<W>, op: &Op, note: &mut dyn FnMut(String)) {
+    let mut n = |r: Result<(), String>| {
+        if let Err(e) = r {
+            note(e)
+        }
+    };
+    match op {
+        Op::File { name, opts, chunks } => {
+            n(w.start_file(name.clone(), opts.to_zip()).map_err(|e| format!("start_file({name:?}): {e}")));
+            for c in chunks {
+                n(w.write_all(&c.expand()).map_err(|e| format!("write to {name:?}: {e}")));
+            }
+        }
+        Op::Dir { name, opts } => n(w.add_directory(name.clone(), opts.to_zip()).map_err(|e| format!("add_directory({name:?}): {e}"))),
+        Op::Symlink { name, target, opts } => n(w.add_symlink(name.clone(), target.clone(), opts.to_zip()).map_err(|e| format!("add_symlink({name:?}): {e}"))),
+        Op::ExtraFile { name, opts, local, central, chunks } => {
+            n(w.start_file_with_extra_data(name.clone(), opts.to_zip()).map(|_| ()).map_err(|e| format!("start_file_with_extra_data({name:?}): {e}")));
+            n(w.write_all(&extras_bytes(local)).map_err(|e| format!("write local extra: {e}")));
+            if let Some(c) = central {
+                n(w.end_local_start_central_extra_data().map(|_| ()).map_err(|e| format!("end_local_start_central_extra_data: {e}")));
+                n(w.write_all(&extras_bytes(c)).map_err(|e| format!("write central extra: {e}")));
+            }
+            n(w.end_extra_data().map(|_| ()).map_err(|e| format!("end_extra_data: {e}")));
+            for c in chunks {
+                n(w.write_all(&c.expand()).map_err(|e| format!("write to {name:?}: {e}")));
+            }
+        }
+        Op::Aligned { name, opts, align, chunks } => {
+            n(w.start_file_aligned(name.clone(), opts.to_zip(), *align).map(|_| ()).map_err(|e| format!("start_file_aligned({name:?},{align}): {e}")));
+            for c in chunks {
+                n(w.write_all(&c.expand()).map_err(|e| format!("write to {name:?}: {e}")));
+            }
+        }
+        Op::Comment(c) => w.set_raw_comment(c.clone()),
+    }
+    n(w.flush().map_err(|e| format!("flush: {e}")));
+}
+
 /// Run a whole program into an in-memory sink; completes by finish() or by drop.
 pub fn run_program(p: &Program, by_drop: bool) -> Result<Vec<u8>, String> {
     let mut sink = std::io::Cursor::new(Vec::new());
